@@ -5,10 +5,10 @@ export GOFLAGS=-mod=mod GOPROXY=off GOSUMDB=off GOTOOLCHAIN=local
 wt="$1"; pkg="$2"; cd "$wt" || exit 2
 {
 echo "== build"; go build ./... && echo BUILD-OK
-echo "== demo WITH change (expect FAIL)"; go test -vet=off -count=1 -run SeedDemo "$pkg" 2>&1 | tail -4
-echo "== demo WITHOUT change (expect ok)"; git apply -R seed.patch && go test -vet=off -count=1 -run SeedDemo "$pkg" 2>&1 | tail -3; git apply seed.patch
+echo "== demo WITH change (expect FAIL)"; go test -vet=off -count=1 -run SeedDemo $pkg 2>&1 | tail -4
+echo "== demo WITHOUT change (expect ok)"; git apply -R seed.patch && go test -vet=off -count=1 -run SeedDemo $pkg 2>&1 | tail -3; git apply seed.patch
 echo "== existing suite WITH change, demo moved aside"
-demo=$(git status --short | grep zz_seed_demo | awk '{print $2}'); mkdir -p /tmp/seed-demo-aside; for d in $demo; do mv "$d" /tmp/seed-demo-aside/$(basename $wt)-$(basename $d); done
+demo=$(git status --short | grep zz_seed_demo | awk '{print $2}'); mkdir -p /tmp/seed-demo-aside; for d in $demo; do mv "$d" /tmp/seed-demo-aside/$(basename $wt)-$(echo "$d" | tr '/' '_'); done
 go test -vet=off -count=1 ./... 2>&1 | grep -v "no test files" | grep -v "^ok" | tail -10; echo "suite exit: done"
-for d in $demo; do mv /tmp/seed-demo-aside/$(basename $wt)-$(basename $d) "$d"; done
+for d in $demo; do mv /tmp/seed-demo-aside/$(basename $wt)-$(echo "$d" | tr '/' '_') "${d%/}"; done
 } > "$wt/verify.log" 2>&1
